@@ -411,38 +411,69 @@ func checkRecursionBounded(c *Ctx, p *Program, rule string) {
 		}
 		// depth guards: a field incremented and compared with a constant in the same function
 		var guards []*ssa.Function
+		var unpaired []string
 		for _, f := range comp {
-			inc, cmp := map[string]bool{}, map[string]bool{}
+			inc, cmp, dec := map[string]bool{}, map[string]bool{}, map[string]bool{}
+			// the function itself, its function literals (a deferred release) and the helpers it calls that are
+			// not part of the cycle (enter / leave style)
+			bodies := []*ssa.Function{f}
+			bodies = append(bodies, f.AnonFuncs...)
 			for _, b := range f.Blocks {
 				for _, ins := range b.Instrs {
-					switch x := ins.(type) {
-					case *ssa.Store:
-						fa, ok := x.Addr.(*ssa.FieldAddr)
-						if !ok {
-							continue
+					if ci, ok := ins.(ssa.CallInstruction); ok {
+						if h := ci.Common().StaticCallee(); h != nil && h.Blocks != nil && !in[h] && isCirclFunc(h) && h.Pkg == f.Pkg {
+							bodies = append(bodies, h)
 						}
-						if bo, ok := x.Val.(*ssa.BinOp); ok && bo.Op == token.ADD {
-							if k, ok := bo.Y.(*ssa.Const); ok && k.Value != nil && k.Value.ExactString() == "1" {
-								inc[fieldName(fa)] = true
+					}
+				}
+			}
+			for _, body := range bodies {
+				for _, b := range body.Blocks {
+					for _, ins := range b.Instrs {
+						if st, ok := ins.(*ssa.Store); ok {
+							if fa, ok := st.Addr.(*ssa.FieldAddr); ok {
+								if bo, ok := st.Val.(*ssa.BinOp); ok && bo.Op == token.SUB {
+									if k, ok := bo.Y.(*ssa.Const); ok && k.Value != nil && k.Value.ExactString() == "1" {
+										dec[fieldName(fa)] = true
+									}
+								}
 							}
 						}
-					case *ssa.BinOp:
-						switch x.Op {
-						case token.GTR, token.GEQ, token.LSS, token.LEQ:
-						default:
-							continue
-						}
-						for i, side := range []ssa.Value{x.X, x.Y} {
-							ld, ok := side.(*ssa.UnOp)
-							if !ok || ld.Op != token.MUL {
-								continue
-							}
-							fa, ok := ld.X.(*ssa.FieldAddr)
+					}
+				}
+			}
+			for _, body := range bodies {
+				for _, b := range body.Blocks {
+					for _, ins := range b.Instrs {
+						switch x := ins.(type) {
+						case *ssa.Store:
+							fa, ok := x.Addr.(*ssa.FieldAddr)
 							if !ok {
 								continue
 							}
-							if _, isK := []ssa.Value{x.Y, x.X}[i].(*ssa.Const); isK {
-								cmp[fieldName(fa)] = true
+							if bo, ok := x.Val.(*ssa.BinOp); ok && bo.Op == token.ADD {
+								if k, ok := bo.Y.(*ssa.Const); ok && k.Value != nil && k.Value.ExactString() == "1" {
+									inc[fieldName(fa)] = true
+								}
+							}
+						case *ssa.BinOp:
+							switch x.Op {
+							case token.GTR, token.GEQ, token.LSS, token.LEQ:
+							default:
+								continue
+							}
+							for i, side := range []ssa.Value{x.X, x.Y} {
+								ld, ok := side.(*ssa.UnOp)
+								if !ok || ld.Op != token.MUL {
+									continue
+								}
+								fa, ok := ld.X.(*ssa.FieldAddr)
+								if !ok {
+									continue
+								}
+								if _, isK := []ssa.Value{x.Y, x.X}[i].(*ssa.Const); isK {
+									cmp[fieldName(fa)] = true
+								}
 							}
 						}
 					}
@@ -451,9 +482,16 @@ func checkRecursionBounded(c *Ctx, p *Program, rule string) {
 			for n := range inc {
 				if cmp[n] {
 					guards = append(guards, f)
+					if !dec[n] {
+						unpaired = append(unpaired, fmt.Sprintf("%s increments %s and never decrements it", fname(f), n))
+					}
 					break
 				}
 			}
+		}
+		if len(unpaired) > 0 {
+			sort.Strings(unpaired)
+			c.bad(rule, "the depth counter of "+strings.Join(names, ", ")+" is released on the way out", strings.Join(unpaired, "; ")+": every construct parsed at that level uses up a level for the rest of the input, so inputs that never nest that deep are refused", p.fnPos(comp[0]))
 		}
 		bounded := false
 		for _, g := range guards {
